@@ -4,10 +4,7 @@ CONSTANTS
   MaxWrites = 2
   MaxReads = 1
   Perpetual = FALSE
-  MutNoBarrier = FALSE
-  MutOnlyOldSlot = FALSE
-  MutOnlyNewSlot = FALSE
-  MutLoadFirst = FALSE
+  Muts <- MutsNone
 SPECIFICATION FairSpec
 INVARIANTS Safe
 PROPERTIES StoreTerminates ReadTerminates
